@@ -923,6 +923,15 @@ class Interp:
                 if pat(c_.pattern, subj) and (c_.guard is None or self.truth(self.expr(c_.guard, env), c_.guard)):
                     self.block(c_.body, env)
                     break
+        elif isinstance(s, ast.With) and all(isinstance(i_.context_expr, ast.Call) for i_ in s.items):
+            # `with open(..) as f:` on a stand-in file (a hook's object marked __file__): entering gives the object itself, leaving swallows nothing
+            for i_ in s.items:
+                v = self.expr(i_.context_expr, env)
+                if not (isinstance(v, AObj) and v.attrs.get('__file__')):
+                    raise Unknown(f"with-statement on something that is not a stand-in file at line {s.lineno}")
+                if i_.optional_vars is not None:
+                    self.assign(i_.optional_vars, v, env)
+            self.block(s.body, env)
         else:
             raise Unknown(f"statement {type(s).__name__} at line {s.lineno}")
 
@@ -1457,7 +1466,27 @@ class Interp:
                     if isinstance(x, AObj): return ('o', id(x))
                     raise Unknown(f"membership on abstract values at line {getattr(node, 'lineno', 0)}")
                 items = b.items if isinstance(b, AList) else list(b)
-                r = cv(a) in [cv(x) for x in items]
+                if not items:
+                    return isinstance(op, ast.NotIn)
+                if isinstance(a, AInt) and a.v is None and all(isinstance(x, AInt) for x in items):
+                    # an abstract number: it is in the container when it is the very number stored there (same bits of the same symbols)
+                    sm_ = [a.same(x) for x in items]
+                    if any(x is True for x in sm_):
+                        return isinstance(op, ast.In)
+                    raise Unknown(f"membership on abstract values at line {getattr(node, 'lineno', 0)}")
+                try:
+                    r = cv(a) in [cv(x) for x in items]
+                except Unknown:
+                    # element by element with the interpreter's own equality (enum members, stand-ins written as dotted names): in when one element is
+                    # surely equal, not in when every element is surely different
+                    r = False
+                    for x in items:
+                        e_ = self.compare(ast.Eq(), a, x, node)
+                        if not isinstance(e_, bool):
+                            raise Unknown(f"membership on abstract values at line {getattr(node, 'lineno', 0)}")
+                        if e_:
+                            r = True
+                            break
                 return r if isinstance(op, ast.In) else not r
             raise Unknown(f"membership on abstract values at line {getattr(node, 'lineno', 0)}")
         if isinstance(op, (ast.Eq, ast.NotEq)) and isinstance(a, (tuple, AList)) and isinstance(b, (tuple, AList)) and type(a) is type(b):
